@@ -12,8 +12,8 @@ BOUNDS = {'_draw_step': 'all start points -32768..32767, steps -99999..99999 per
                         'angle 0, both flags', 'command strings': 'templates [B][N] <letter> [sign] '
           '<1-3 digits> with the letter any byte, and free byte strings of length <= 3 (quick) / 4 '
           '(thorough) over all 256 byte values', 'M commands': 'M x,y / M+x,y / M-x,y with two- and one-digit symbolic numbers, optional sign on y, '
-          'prefixes B and N', 'outside': 'rotation (A, TA: Python floats and trig), X '
-          'substrings and =variable; arguments, P (paint), WINDOW'}
+          'prefixes B and N', 'variables': 'R/U/M with [+-]=A%; / =B%; operands in the whole interpreter, A%, B% in -300..300', 'outside': 'rotation (A, TA: Python floats and trig), X '
+          'substrings, VARPTR$ operands, P (paint), WINDOW'}
 ASSUMPTIONS = ['z3 decides the formulas', 'symx models validated per path',
                'int / 4.0 is modelled as an exact dyadic number (exact in IEEE doubles below 2^53)',
                '_draw_line is replaced by a recorder on the Graphics instance']
@@ -215,8 +215,36 @@ def body_free(h):
     return [res[0], res[1] if res[0] != 'ok' else None, g.lines, list(g._draw_current)]
 
 
+def body_session_variables(h):
+    """=variable; operands with and without a sign, through the whole interpreter (pen read from Graphics._draw_current: POINT converts through Python floats)"""
+    from . import session
+    from .c19 import _geti
+    impl = session.mk_impl(h)
+    impl.execute(b'A%=0:B%=0:X1%=0:Y1%=0:X2%=0:Y2%=0:X3%=0:Y3%=0')
+    impl.execute(b'SCREEN 1')
+    a, b = h.int('a', -300, 300), h.int('b', -300, 300)
+    from symx import seqs
+    for n, v in ((b'A%', a), (b'B%', b)):
+        items = s16_bytes(v)
+        session.poke_int(h, impl, n, seqs.mk_bytes(items) if h.symbolic else bytes(items))
+    sign1, sign2 = h.choice('s1', [b'', b'+', b'-']), h.choice('s2', [b'', b'+', b'-'])
+    got = []
+    impl.execute(b'PSET (160,100),0: DRAW "BR' + sign1 + b'=A%;"')
+    got += list(impl.graphics._draw_current)
+    impl.execute(b'DRAW "BU' + sign2 + b'=B%;"')
+    got += list(impl.graphics._draw_current)
+    impl.execute(b'DRAW "BM+=A%;,' + sign2 + b'=B%;"')
+    got += list(impl.graphics._draw_current)
+    h.require('no-error', impl.interpreter.error_num == 0, impl.interpreter.error_num)
+    sa = -a if sign1 == b'-' else a
+    sb = -b if sign2 == b'-' else b
+    want = [160 + sa, 100, 160 + sa, 100 - sb, 160 + sa + a, 100 - sb + sb]
+    h.require('pen-follows-signed-variable-operands', s_and(*[g == w for g, w in zip(got, want)]), got)
+    return got
+
+
 def cases(tier):
-    cs = [Case('step', body_step)]
+    cs = [Case('step', body_step), Case('session-variable-operands', body_session_variables, max_fanout=100, timeout_s=900)]
     for nd in (0, 1, 2, 3):
         for pre in ([], [66], [78], [66, 78]):
             for sign in (0, 43, 45):
